@@ -40,9 +40,10 @@ Fixpoint evalv (e : expr) (st : store) : sval :=
   | EUn op a => eval_unop op (evalv a st)
   | ELen a => VInt (alen (getar st a))
   | ECols a => VInt (acols (getar st a))
-  | ERead1 _ a i => nthZ (adata (getar st a)) (to_int (evalv i st))
+  | ERead1 _ a i => coerce (adt (getar st a)) (nthZ (adata (getar st a)) (to_int (evalv i st)))
   | ERead2 _ a i j =>
-      nthZ (adata (getar st a)) (to_int (evalv i st) * acols (getar st a) + to_int (evalv j st))
+      coerce (adt (getar st a))
+             (nthZ (adata (getar st a)) (to_int (evalv i st) * acols (getar st a) + to_int (evalv j st)))
   | ESum a lo hi =>
       sum_cells (adt (getar st a))
                 (adata (slice_rows (getar st a) (to_int (evalv lo st)) (to_int (evalv hi st))))
